@@ -500,9 +500,22 @@ fn gen_tracks(r: &mut Rng) -> (&'static str, Vec<Track>) {
     let mut label = "tracks";
     for _ in 0..n {
         if !out.is_empty() && r.chance(1, 6) {
-            // identical track
+            // identical track, or the same helix with another t range (one of the two may then fail the
+            // track-length cut: equal helices are NOT equal tracks)
             let t = out[r.below(out.len() as u64) as usize];
-            out.push(t);
+            if r.chance(1, 2) {
+                out.push(t);
+            } else {
+                let p = t.verif_params();
+                let t_in = uni_in(r, -1.0, 1.0);
+                let dt = r.pick(&[0.0, 0.01 / p[3], 0.034 / p[3], 0.036 / p[3], 0.5, -0.5, 1.2]);
+                let twin = Track::verif_from_params(p, t_in, t_in + dt);
+                if r.chance(1, 2) {
+                    out.push(twin);
+                } else {
+                    out.insert(0, twin);
+                }
+            }
             continue;
         }
         let big_r = if r.chance(2, 3) { r.pick(&radii) } else { uni_in(r, 0.1, 3.0) };
